@@ -2,6 +2,7 @@
    Op 0 loads the live action catalogue; ops n*100 .. n*100+99 belong to property Cn (theories/Run/Rn.v). *)
 From Coq Require Import List Bool NArith ZArith.
 From PV Require Import Base.Str Base.Value Base.Wire Run.RState.
+From PV Require Import Run.R01.
 From PV Require Import Run.R08.
 Import ListNotations.
 Local Open Scope N_scope.
@@ -10,6 +11,7 @@ Definition BAD : value := VStr [66; 65; 68].
 
 Definition dispatch (st : rstate) (op : N) (arg : value) : option (rstate * value) :=
   match op / 100 with
+  | 1 => run01 st op arg
   | 8 => run08 st op arg
   | _ => None
   end.
